@@ -7,6 +7,10 @@ ENGINES={
  "lexmc":("harness/src/lexmc.rs","exhaustive prefix-tree exploration of all strings up to a length bound through the real lexer"),
 }
 CHECKS={
+ "C02":dict(engine="progmc",category="exploration",
+   text="Complete enumeration of function-binding programs (every signature of 0-2 required, 0-2 optional, variadic, captured and method arguments x every argument count 0..n+2 x six call spellings incl. paren-free, piped and packed; generator functions with the same signatures; structured/unpacking arguments x 14 argument shapes), of all statement sequences up to length 3 (thorough 4) over a 14-statement closure/capture alphabet both at top level and inside a function, and of generator bodies x consumers (next, for+break, to_tuple, interleaved instances) with printing that makes laziness observable. Differential against the reference interpreter.",
+   note="Trusted: kref and the renderer; bounded sizes. Scoping is only generated where static (compile-order) and dynamic capture coincide.",
+   technique="bounded-exhaustive program enumeration + differential against a reference model (every case replayed on the implementation)"),
  "C01":dict(engine="progmc",category="exploration",
    text="Complete enumeration of small program families (all one-operator trees over a 16-leaf alphabet in 16 surrounding contexts x top-level/function body; two-operator trees over a reduced alphabet; comparison chains of 3-4 operands; i64/f64 boundary leaves; assignment statement sequences; every range form; every index/slice of small containers; if/switch/loop shapes with 0..3 iterations and break/continue values). Each program is compiled and run on the real koto and evaluated by an independent reference interpreter written from the language guide; stdout, result and error class must agree.",
    note="Trusted: kref (the reference interpreter) and the renderer; bounded depth (small-scope hypothesis). Runtime error messages are not compared, only classes.",
